@@ -1117,23 +1117,18 @@ def _list_decorators() -> Dict[str, Callable[[_FN], _FN]]:
                 fn(self, index, value)
             else:
                 # slice assignment requires __delitem__, insert, __len__
-                step = index.step or 1
-                start = index.start or 0
-                if start < 0:
-                    start += len(self)
-                if index.stop is not None:
-                    stop = index.stop
-                else:
-                    stop = len(self)
-                if stop < 0:
-                    stop += len(self)
+                start, stop, step = index.indices(len(self))
+                if value is self and step == 1 and (start, stop) == (
+                    0,
+                    len(self),
+                ):
+                    return
+                # the value may be the collection itself or an iterator
+                value = list(value)
 
                 if step == 1:
-                    if value is self:
-                        return
-                    for i in range(start, stop, step):
-                        if len(self) > start:
-                            del self[start]
+                    for i in range(start, stop):
+                        del self[start]
 
                     for i, item in enumerate(value):
                         self.insert(i + start, item)
